@@ -170,13 +170,24 @@ def gen_c01(tier, seed):
                 sure = m["exit_at"] is not None or any(o.startswith("K 0") for o in ops)
                 ops.append("W 0 %d" % (INFINITE if sure else 40))
         m["dl"] = dl
+        fault = ""
+        if i >= 300 and i % 7 == 0:
+            # an interrupted poll/waitpid inside wait must not lose the status for later calls
+            fn = r.choice(["waitpid", "poll", "poll"])
+            m["fault"] = (fn, r.randrange(3) if fn == "poll" else 0)
+            fault = "F 0 %s %d 4 ; " % m["fault"]
+            ops.append("W 0 %d" % r.choice([0, 20]))
+            if m["exit_at"] is not None:
+                ops.append("Z 130")
+                ops.append("W 0 0")
+                ops.append("W 0 20")
         if i < 256 + len(TERM_SIGS):
             # the enumeration cases never signal the child and always collect the status
             ops = [o for o in ops if o[0] not in "TKS"]
             ops.append("W 0 -1")
             ops.append("W 0 0")
-        script = "N 0 ; S 0 %s dl=%d stop=3:-1:0:0:0:0 ; %s%s ; D 0" % (
-            child_tokens(m), dl, child_event(m), " ; ".join(ops))
+        script = "%sN 0 ; S 0 %s dl=%d stop=3:-1:0:0:0:0 ; %s%s ; D 0" % (
+            fault, child_tokens(m), dl, child_event(m), " ; ".join(ops))
         sig = "c01/%s/%s/%s" % (kind, m.get("exit_code", m.get("raise_sig", "-")) if i < 300 else "r",
                                  "".join(o.split()[0][0] + o.split()[-1][-1] for o in ops))
         cases.append(Case("c01-%d" % i, script, m, sig))
@@ -394,6 +405,19 @@ def judge_c01(case, log):
                     vs.append(Violation("C01", "C01/life/later-wait-touches-os", "%s after status made system calls" % name))
         elif name in ("W", "ST") and status is not None:
             vs.append(Violation("C01", "C01/life/unstable-status", "%s returned %d after status %d" % (name, op["ret"], status)))
+        elif name == "W" and op["ret"] == ETIMEDOUT and end is not None and end["vt"] <= op["t0"] \
+                and not any(t[7] & 1 for t in op.get("tr", [])):
+            obs["waits_after_end"] = obs.get("waits_after_end", 0) + 1
+            vs.append(Violation("C01", "C01/life/status-lost:timeout-although-ended",
+                                "wait returned ETIMEDOUT although the child ended at vt=%d (before the call at %d)" % (end["vt"], op["t0"])))
+    if case.meta.get("fault"):
+        obs["fault_cases"] = 1
+        fired = [f for f in (log.fin.get("faults") or []) if f[4]]
+        obs["faults_fired"] = len(fired)
+    fin = log.fin
+    gtf = [g for g in fin.get("gt", []) if g[0] == 0]
+    if gtf and gtf[0][1] == "zomb" and not fin.get("hang") and obs["status_returns"] > 0:
+        vs.append(Violation("C01", "C01/life/zombie-left-after-status", "a status was returned but the child is still a zombie at the end of the case"))
     nontrivial = obs["status_returns"] > 0
     return vs, obs, nontrivial
 
